@@ -1,5 +1,6 @@
 """C06 — decoding is total and always yields a well-formed beatmap."""
 from vlib import *
+import m_sort
 import m_dec
 
 
@@ -11,6 +12,7 @@ def run(chk):
         chk.broken_obligation("build", "harness does not build against /repo: " + blog)
         return
     m_dec.run(chk, binary, 800 if quick else 12000, 500 if quick else 8000, 4000 if quick else 60000)
+    m_sort.run(chk, binary, 300 if quick else 6000)
     chk.cov["rule"] = ("timing cases: 0-8 timing lines (uninherited / inherited, NaN beat lengths, times 0, -0, equal, "
                        "decreasing, within EPSILON) in all four modes, decoded control points vs the Coq model word for word; "
                        "object cases: up to 13 object lines with ties, negative and -0 times and distinct sounds, decoded order vs "
